@@ -352,7 +352,8 @@ def run(rec):
     for k, (w, h, d) in enumerate(shapes):
         for bc in ([(k * 3) % 8, (k * 3 + 5) % 8, 7] if q else range(8)):
             items.append(("engine", w, h, d, bc))
-    eq = [("AB_rev", ("grid", 2, 1, 1, 0)), ("ABC_bi", ("grid", 3, 1, 1, 1)), ("AB_rev", ("grid", 2, 2, 1, 4)), ("none", ("grid", 1, 1, 1, 7)), ("dimer_source", ("grid", 2, 1, 1, 1))]
+    eq = [("AB_rev", ("grid", 2, 1, 1, 0)), ("ABC_bi", ("grid", 3, 1, 1, 1)), ("AB_rev", ("grid", 2, 2, 1, 4)), ("none", ("grid", 1, 1, 1, 7)), ("dimer_source", ("grid", 2, 1, 1, 1)),
+          ("none", ("grid", 1, 2, 1, 0)), ("none", ("grid", 1, 1, 2, 3)), ("AB_rev", ("grid", 1, 3, 1, 2))]     # flat grids: w == 1 with h >= 2, h == 1 with d >= 2 (strides coincide)
     if not q:
         eq += [("ABC_bi", ("grid", 2, 2, 2, 7)), ("order3_repeat", ("grid", 3, 2, 1, 5)), ("AB_rev", ("grid", 4, 1, 1, 1)), ("chstt_B", ("grid", 1, 3, 1, 2))]
     items += [("equiv",) + e for e in eq]
